@@ -38,8 +38,8 @@ class C11(BaseCheck):
                  '(known from the simulated socket\'s read offsets)',)
   QUICK_CASES = 720
   THOROUGH_CASES = 20000
-  QUICK_WALL = 50
-  THOROUGH_WALL = 420
+  QUICK_WALL = 180
+  THOROUGH_WALL = 1800
   MIN_DISTINCT = 10
 
   def setup(self, env, tier):
